@@ -19,7 +19,8 @@ MANIFEST = dict(
          "utf-16-le; C20_win_bom_refuted records defect F8 of the pinned 'utf-16'). Windows emitter: C20_win_contract - for every "
          "tree and every operation the real action table, fed the simulator's notifications, queues exactly the per-operation "
          "contract (one moved event + one synthetic event per descendant via C14, move in/out = created/deleted); "
-         "C20_win_replay_partial - replay reproduces the tree for histories of any length whose renamed/arriving entries are leaves; "
+         "C20_win_cuts / C20_win_contract_cut - the same for every cut of the notification stream into reads (pending old name "
+         "carried across calls); C20_win_replay_partial - replay reproduces the tree for histories of any length whose renamed/arriving entries are leaves; "
          "the general replay law is a stated Definition checked by the oracle. FSEvents emitter: C20_fsevents_flat(+_depth) proved "
          "for every batch; contract/replay for uncoalesced one-operation batches are stated Definitions checked by correspondence "
          "and oracle; several operations per batch: C20_fsevents_batched_refuted (F12). All models are tied to /repo by running the "
@@ -27,7 +28,9 @@ MANIFEST = dict(
     note="Trusted: Coq kernel; struct 'iIII' = little-endian 4x32 bit on this machine; ctypes reads; CPython's utf-16 codecs "
          "(validated against the model on every run). ReadDirectoryChangesW and FSEvents semantics are modelled from the "
          "documentation and cannot be validated in this sandbox; os.path is posixpath here (ntpath on Windows). Known findings "
-         "F11 (REMOVED always File flavour), F12 (FSEvents rename pairing inside one batch), F13 (rename pair cut across reads).",
+         "F11 (REMOVED always File flavour), F12a-e (FSEvents rename pairing / os.stat look-up inside one multi-operation batch, "
+         "one entry per operation-log pattern). F13 (rename pair cut across reads) is repaired by fixes/F13-win-rename-state.diff; "
+         "the model follows the repaired code (C20_win_cuts, C20_win_contract_cut), C20_win_cut_refuted records the pinned behaviour.",
     technique="Coq proof (induction over record lists / per-operation case analysis) + differential correspondence via "
               "extracted OCaml model + implementation-level oracle on a real scratch directory",
 )
